@@ -396,7 +396,7 @@ pub fn check_bytes(b: &[u8], l: &mut Local) {
     l.distinct.insert(util::fnv_str(&key));
 }
 
-fn gen_txt_bytes(rng: &mut Rng) -> Vec<u8> {
+pub fn gen_txt_bytes(rng: &mut Rng) -> Vec<u8> {
     match rng.below(4) {
         0 => {
             let n = rng.usize(601);
